@@ -178,6 +178,9 @@ pub(crate) const FUNC_TABLE: FuncTable = FuncTable {
 
 fn func_random(ctx: &EvalContext, args: &[Expr]) -> Result<i64, ExprError> {
     let max = args[0].eval(ctx)?;
+    if max <= 1 {
+        return Err(ExprErrorKind::EmptyRandomRange(max).into());
+    }
     Ok(ctx.random(1..max))
 }
 
